@@ -11,6 +11,12 @@ pub fn c11_contract_objective_bounds_3() {
     let pop = sym_population(3);
     let _ = objective_bounds(&pop);
 }
+/// @verif anchor=objective_bounds bound="population size 2; all objective values"
+#[cfg_attr(kani, kani::proof_for_contract(objective_bounds))] #[cfg_attr(kani, kani::unwind(6))]
+pub fn c11_contract_objective_bounds_2() {
+    let pop = sym_population(2);
+    let _ = objective_bounds(&pop);
+}
 /// @verif anchor=objective_bounds bound="population size 0"
 #[cfg_attr(kani, kani::proof_for_contract(objective_bounds))] #[cfg_attr(kani, kani::unwind(6))]
 pub fn c11_contract_objective_bounds_0() {
